@@ -58,6 +58,8 @@ def check(repo, col, tier):
     c01_solver._elim(repo, col, "R-C13-elim")
     col.rule("R-C13-ends", "re-initialised branch-point edges attach at each branch's own first / last compartment", 4)
     c01_solver._ends(repo, col, "R-C13-ends")
+    col.rule("R-C13-initorder", "what set_ncomp re-runs before the view state is refreshed does not read the view state", 6)
+    init_order(repo, col, "R-C13-initorder")
     col.rule("R-C13-uniform", "the branch is tested for uniformity by comparing values, never through floating-point statistics", 4)
     uniformity_guards(repo, col, fi, ex, "R-C13-uniform")
     col.rule("R-C13-iter", "branches are handed out one at a time, so set_ncomp inside a loop over branches sees current rows", 2)
@@ -476,3 +478,53 @@ def _reinit(repo, col, fi, ex):
     asserts = [unparse(n.test) for n in walk_no_nested(fi.node) if isinstance(n, ast.Assert)]
     ok = any("network" in a for a in asserts) and any("cell" in a and "_branches_in_view" in a for a in asserts)
     col.check(ok, R, fi, "networks and whole cells are refused", "", f"assertions: {asserts}", node=fi.node)
+
+
+def init_order(repo, col, R):
+    """set_ncomp replaces rows of the tables and then calls `_initialize()` (the solver structures) BEFORE `_init_view()` (which
+    recomputes `_nodes_in_view`, `_edges_in_view`, ...).  Whatever `_initialize` reaches -- the `_init_morph*` methods of every module
+    class -- therefore runs while those attributes still describe the OLD rows; it must take sizes and rows from the tables and the
+    structure attributes (`nodes`, `ncomp`, `cumsum_ncomp`, ...), never from what `_init_view` assigns."""
+    sn = repo.method("Module", "set_ncomp")
+    order = [(n.lineno, n.func.attr) for n in ast.walk(sn.node) if isinstance(n, ast.Call) and isinstance(n.func, ast.Attribute)
+             and n.func.attr in ("_initialize", "_init_view", "_init_morph")]
+    order.sort()
+    names = [a for _l, a in order]
+    if "_init_view" not in names or not (set(names) & {"_initialize", "_init_morph"}):
+        raise AnalysisError("set_ncomp: calls of _initialize / _init_view not found")
+    first_init = next(i for i, a in enumerate(names) if a in ("_initialize", "_init_morph"))
+    if names.index("_init_view") < first_init:
+        col.ok(R, sn, "set_ncomp refreshes the view state before re-initialising", "", node=sn.node)
+        return
+    iv = repo.method("Module", "_init_view")
+    V = {t.attr for st in ast.walk(iv.node) if isinstance(st, ast.Assign) for t in st.targets
+         if isinstance(t, ast.Attribute) and isinstance(t.value, ast.Name) and t.value.id == "self"}
+    if len(V) < 2:
+        raise AnalysisError("_init_view: assigned view attributes not found")
+    # methods reachable from _initialize through self-calls, in every module class
+    mods = [c for c in repo.classes.values() if any(b.name == "Module" for b in repo.mro(c.name)) and c.name != "View"]
+    reach, todo = set(), ["_initialize"]
+    while todo:
+        m = todo.pop()
+        if m in reach:
+            continue
+        reach.add(m)
+        for c in mods:
+            if m in c.methods:
+                for n in ast.walk(c.methods[m].node):
+                    if isinstance(n, ast.Call) and isinstance(n.func, ast.Attribute) and isinstance(n.func.value, ast.Name) and n.func.value.id == "self":
+                        todo.append(n.func.attr)
+    n_ = 0
+    for c in sorted(mods, key=lambda c: c.name):
+        for m in sorted(reach):
+            if m not in c.methods:
+                continue
+            fi = c.methods[m]
+            n_ += 1
+            bad = [x for x in ast.walk(fi.node) if isinstance(x, ast.Attribute) and isinstance(x.ctx, ast.Load) and isinstance(x.value, ast.Name)
+                   and x.value.id == "self" and x.attr in V]
+            col.check(not bad, R, fi, f"{c.name}.{m} does not read the view state that _init_view assigns", f"reads none of {sorted(V)}",
+                      f"`self.{bad[0].attr if bad else ''}` is read, but set_ncomp calls _initialize() before _init_view(): during the re-initialisation it still "
+                      f"describes the rows before the change (old number of compartments), so the structure built from it is that of the old module", node=bad[0] if bad else fi.node)
+    if n_ < 6:
+        raise AnalysisError(f"only {n_} initialisation methods found")
